@@ -341,7 +341,10 @@ func (x *Engine) loopHeader(fr *Frame, li *loopInfo, st *State) {
 				env[k] = v
 			}
 			ev := &Eval{x: x, st: st, old: fr.entry, env: env, hash: hash, pkg: fr.fn.Pkg}
-			lv := x.safeEval(ev, c)
+			lv, okLet := x.trySafeEval(ev, c)
+			if !okLet {
+				continue
+			}
 			lv.T = x.name("llet_"+mangle(c.Label), ev.sortOf(lv), lv.T)
 			fr.loopLets[h][c.Label] = lv
 		}
@@ -512,7 +515,7 @@ func (x *Engine) backEdge(fr *Frame, from, h *ssa.BasicBlock, st *State) {
 func (x *Engine) invBool(ev *Eval, c *Clause, ord int) (res string, ok bool) {
 	defer func() {
 		if r := recover(); r != nil {
-			if ee, isEE := r.(evalErr); isEE && strings.Contains(ee.msg, "unknown name") {
+			if ee, isEE := r.(evalErr); isEE && softName(ee.msg) {
 				x.degrade(fmt.Sprintf("invariant [%s] of loop %d in %s is skipped: %s (the contract names a local variable the current code does not have)", c.Label, ord, x.curFn, ee.msg))
 				res, ok = "true", false
 				return
@@ -526,7 +529,7 @@ func (x *Engine) invBool(ev *Eval, c *Clause, ord int) (res string, ok bool) {
 func (x *Engine) safeEvalBool2(ev *Eval, c *Clause) (res string) {
 	defer func() {
 		if r := recover(); r != nil {
-			if ee, ok := r.(evalErr); ok && !strings.Contains(ee.msg, "unknown name") {
+			if ee, ok := r.(evalErr); ok && !softName(ee.msg) {
 				panic(fmt.Sprintf("%s:%d: contract error: %s\n    in: %s", c.File, c.Line, ee.msg, c.Text))
 			}
 			panic(r)
@@ -535,16 +538,48 @@ func (x *Engine) safeEvalBool2(ev *Eval, c *Clause) (res string) {
 	return ev.evalBool(c.Expr)
 }
 
+// softName: the clause names something the current code does not have (a local variable that an edit renamed or
+// removed, the iteration count #i of a loop that is no longer a range loop). Such a clause cannot be stated about this
+// code: it is skipped, the function is marked degraded (failures are then reported as undecided, not as violations).
+func softName(msg string) bool {
+	return strings.Contains(msg, "unknown name") || strings.Contains(msg, "is not defined here")
+}
+
 func (x *Engine) safeEvalBool(ev *Eval, c *Clause) (res string) {
 	defer func() {
 		if r := recover(); r != nil {
 			if ee, ok := r.(evalErr); ok {
+				if softName(ee.msg) && x.curFn != "" {
+					x.degrade(fmt.Sprintf("clause [%s] of %s cannot be stated about the current code: %s", c.Label, x.curFn, ee.msg))
+					b := x.fresh("unstated")
+					x.decl(b, "Bool")
+					res = b
+					return
+				}
 				panic(fmt.Sprintf("%s:%d: contract error: %s\n    in: %s", c.File, c.Line, ee.msg, c.Text))
 			}
 			panic(r)
 		}
 	}()
 	return ev.evalBool(c.Expr)
+}
+
+// trySafeEval: like safeEval, but a clause that names something the current code does not have yields ok=false
+func (x *Engine) trySafeEval(ev *Eval, c *Clause) (res Val, ok bool) {
+	defer func() {
+		if r := recover(); r != nil {
+			if ee, isEE := r.(evalErr); isEE && softName(ee.msg) {
+				x.degrade(fmt.Sprintf("clause [%s] of %s cannot be stated about the current code: %s", c.Label, x.curFn, ee.msg))
+				ok = false
+				return
+			}
+			if ee, isEE := r.(evalErr); isEE {
+				panic(fmt.Sprintf("%s:%d: contract error: %s\n    in: %s", c.File, c.Line, ee.msg, c.Text))
+			}
+			panic(r)
+		}
+	}()
+	return ev.eval(c.Expr), true
 }
 
 // writeSet: state components a loop may write (conservative, syntactic).
@@ -850,6 +885,9 @@ func (x *Engine) writeSet(fr *Frame, li *loopInfo) (map[string]bool, map[string]
 			}
 		}
 		for _, an := range fn.AnonFuncs {
+			if x.closureOnlyHandedToContracts(fn, an) {
+				continue // e.g. the function handed to time.AfterFunc: this thread never runs it
+			}
 			scanFn(an, depth+1)
 		}
 	}
@@ -1017,4 +1055,44 @@ func (x *Engine) guardInterferenceActive() bool {
 		}
 	}
 	return false
+}
+
+// closureOnlyHandedToContracts: every closure value made from `an` inside fn is used only as an argument of calls whose
+// callee has a contract (extern or not) — the contract, not the closure's body, says what such a call changes.
+func (x *Engine) closureOnlyHandedToContracts(fn, an *ssa.Function) bool {
+	found := false
+	for _, b := range fn.Blocks {
+		for _, ins := range b.Instrs {
+			mc, ok := ins.(*ssa.MakeClosure)
+			if !ok || mc.Fn != an {
+				continue
+			}
+			found = true
+			refs := mc.Referrers()
+			if refs == nil {
+				return false
+			}
+			for _, r := range *refs {
+				if _, isDbg := r.(*ssa.DebugRef); isDbg {
+					continue
+				}
+				call, isCall := r.(ssa.CallInstruction)
+				if !isCall {
+					return false
+				}
+				cc := call.Common()
+				if cc.Value == ssa.Value(mc) {
+					return false // the closure itself is called
+				}
+				callee := cc.StaticCallee()
+				if callee == nil {
+					return false
+				}
+				if fs := x.db.Funcs[specKeyOf(callee)]; fs == nil || !fs.HasMod {
+					return false
+				}
+			}
+		}
+	}
+	return found
 }
